@@ -167,7 +167,8 @@ class M(Model):
         random tie-break (its node was named by another agent with an edge to it) "does not connect";
         the docs give -1 for that, the code 0 - the documentation does not mention ties, so the loser's
         reward is only required to lie in [-1, 0] (value -0.5, slack 0.5).  Who won is read off `nxt`;
-        without `nxt` a contested step is undefined (None)."""
+        without `nxt` a contested step is undefined (None).  Steps in which an unfinished agent
+        plays an illegal action are outside the property (None)."""
         act = np.asarray(act, np.int64).reshape(-1)
         legal = self.legal(prev)
         visited = self._visited(prev)
@@ -179,8 +180,7 @@ class M(Model):
                 continue
             v = int(act[k])
             if not (0 <= v < self.N) or not legal[k, v]:
-                total += -2.0
-                continue
+                return None  # C08 is about legal play; (the documented value would be -2)
             if self._contested(prev, act, k, could):
                 if nxt is None:
                     return None
